@@ -592,5 +592,6 @@ theorem envOK_api (a : Nat) (st : State) (op : Op) (h : op ≠ .exit a) : EnvOK 
   | newRemote b =>
     exact envOK_of_same ⟨fun _ => rfl, fun _ => rfl, fun _ => rfl, fun _ => rfl, fun _ => rfl, fun _ => rfl,
       fun _ h => h⟩
+  | drain b => exact envOK_of_same (same_refl st)
 
 end Pg.Fine
